@@ -168,7 +168,7 @@ pub fn directed() -> Vec<(&'static str, Scn)> {
         (
             "data-completes-handshake-after-synack-retx",
             scn(json!({"cfg": {}, "c2s": {"total": 100, "wchunks": [100], "rbufs": [4096]},
-                "s2c": {"total": 100, "wchunks": [100], "rbufs": [4096]},
+                "s2c": {"total": 100, "wchunks": [50], "rbufs": [4096], "write_pause": 8},
                 "latency": 5, "sched": {"explicit": ["c2s:HSACK#0:drop"]}})),
         ),
     ]
